@@ -118,6 +118,26 @@ DESC = {
  "C13-r5-2": "ceil-division in `InclusiveRange.Len` overflows; needs `end-start+step` beyond int64",
  "C14-r5-1": "digit-count table stops at 1e9; needs wide padding (≥ 12) on frames ≥ 1e10",
  "C14-r5-2": "disjoint short-circuit reads the 0 sentinel of an empty list; needs a first range through 0 over an empty container",
+ "C02-r6-1": "`AppendUnique` merges a unit-step range into an adjacent last block without the membership test; needs ≥ 3 components, `tail.End()+1 == start` and an earlier overlapping block (`15-25,1-10,11-20`)",
+ "C02-r6-2": "`Len` computes the span as `float64(end)-float64(start)`; needs bounds beyond 2^53",
+ "C05-r6-1": "`newFileSequence` takes pad characters from the package-level (hash4) mapper; needs hash1 + a pad-less result (all-digit name or lone frame after `<digit>-`) of width 4k with a leading zero",
+ "C05-r6-2": "bucket key = `filepath.Join(dir, base)` + ext; needs `D/<frame>.ext` next to `D<frame>.ext`, or `.<frame>.ext` next to `<frame>.ext` with hidden files",
+ "C07-r6-1": "template frame test by regex `^-?\\d+$`; needs a sibling whose digits exceed int64 (joins the bucket / never returns)",
+ "C07-r6-2": "`filepath.Clean` moved before `os.Open`; needs a pattern directory spelled `<symlink>/../x/` (exposed the genuine defect c7985e5 on the unchanged tree on the way)",
+ "C12-r6-1": "`Copy` stores the failed re-parse (nil) instead of keeping the frame set; needs `SetFrameSet(Invert())` of a gapless range, then `Copy`/`Split`",
+ "C12-r6-2": "`Split` builds parts with `newFileSequence`; needs an empty pad (`SetPadding(\"\")`) and ≥ 2 comma components",
+ "C15-r6-1": "look-behind via `TrimSuffix(base, \"-\")` then index; needs a lone file `--5.exr` (basename `-`) → panic",
+ "C15-r6-2": "`IsFrameRange` zero-step test on the text (`TrimLeft(num,\"0\")`); needs a negative-zero step (`1-10x-0`)",
+ "C16-r6-1": "`AllChars()` sorts the shared pad-character slice in place; needs two goroutines in their first library call (and the unlucky map order, ~1 process in 8)",
+ "C16-r6-2": "`Copy()` shallow-copies the FrameSet (shared blocks with their lazy `End()` memo); needs copies of an unqueried stepped sequence handed to goroutines that ask `End()` at once",
+ "C17-r6-1": "fastwalk `SkipFiles` skips every non-directory (so also directory symlinks); needs `-r`, a cyclic link and another directory link in the same directory, second pass through the cycle",
+ "C17-r6-2": "a failed `os.Stat` is tried as a pattern only for ENOENT; needs a pattern argument with a ≥ 256-byte file name (ENAMETOOLONG)",
+ "C18-r6-1": "`--range` parsed once, the FrameSet shared by the per-pattern goroutines (racy `End()` memo); needs `-r` and ≥ 2 patterns — found by the race-detector build of seqinfo",
+ "C18-r6-2": "stdin read only when it is a named pipe; needs stdin from a regular file",
+ "C19-r6-1": "C++ scan key = `base + ext` as one string; needs `shot0001.comp.exr` next to `shot.comp0007.exr`",
+ "C19-r6-2": "C++ template lookup validates the middle with `strtol` + end pointer (skips leading blanks); needs `shot.   7.exr` next to a lookup of `shot.#.exr`",
+ "C20-r6-1": "`Decref` decides 'last reference' from a load before the decrement; needs two owners releasing the last two references at once → leak",
+ "C20-r6-2": "`Uint64()` returns `next() >> 1`; needs a generator state of 1 (id 0) or states 2y / 2y+1 — found by `hseed` with the pre-images of small states",
  "C20-r4-1": "map compaction copies under RLock and swaps under Lock; needs ≥ 1024 handles released while another thread releases or creates",
  "C20-r4-2": "handle = address of the entry; needs release, a GC cycle, re-creation (the id comes back)",
  "C02-r2-2": "`Frames()` memoised and shared; needs Frames → caller mutates the slice → query again",
